@@ -11,7 +11,7 @@ import subprocess
 import sys
 
 HERE = os.path.dirname(os.path.dirname(os.path.abspath(__file__)))
-WT = "/tmp/wt-confirm"
+WT = os.environ.get("CONFIRM_WT", "/tmp/wt-confirm")
 
 
 def sh(cmd, cwd=None, timeout=1800):
